@@ -98,7 +98,7 @@ func New(prop, tier string, seed int64, m *model.Runner) *Ctx {
 
 func (c *Ctx) Quick() bool { return c.Tier != "thorough" }
 
-func (c *Ctx) Register(k *Kind) { c.kinds[k.Name] = k }
+func (c *Ctx) Register(k *Kind)          { c.kinds[k.Name] = k }
 func (c *Ctx) KindByName(n string) *Kind { return c.kinds[n] }
 
 func (c *Ctx) Count(hist, key string) {
@@ -110,7 +110,9 @@ func (c *Ctx) Count(hist, key string) {
 	h[key]++
 }
 
-func (c *Ctx) Note(format string, a ...any) { c.Rep.Notes = append(c.Rep.Notes, fmt.Sprintf(format, a...)) }
+func (c *Ctx) Note(format string, a ...any) {
+	c.Rep.Notes = append(c.Rep.Notes, fmt.Sprintf(format, a...))
+}
 
 func panicClass(r any) string {
 	msg := fmt.Sprint(r)
